@@ -112,7 +112,7 @@ func Harness_C11_isFatal() {
 //
 //verif:opt maxpaths=60000 reach=done wall=900
 func Harness_C11_totality() {
-	n := vChoice("len", 6)
+	n := vChoice("len", 6+2*vTier())
 	b := vBytes("der", n)
 	switch vChoice("parser", 7) {
 	case 0:
